@@ -35,6 +35,7 @@ def oracle_pass(chk, scripts, traces, props, pristine=False):
         rq = fsoracle.Requests()
         tainted = False
         reinstated = False
+        lost_at = {}
         for rec in recs:
             ev = sc['events'][rec['seq']] if rec['seq'] >= 0 else {}
             if ev.get('op') == 'Reconfigure' and rec['reply']['class'] == 'ok' and ev['config'] != '__CURRENT__':
@@ -51,6 +52,15 @@ def oracle_pass(chk, scripts, traces, props, pristine=False):
                 fs = [dict(f, sig='after-failed-revert') if f['clause'] in TOLD_CLAUSES else f for f in fs]
             # K2 survives only where grants are REINSTATED (configuration update, restart): before the first such
             # request of a history a starved descendant pool can only come from an allocation, which now refuses it
+            # K3 survives only where a re-allocation fails at Synchronize or in a configuration update: a container that
+            # lost its grant in an UpdateContainer request (the refused update now restores it) is reported as such
+            nowg = {g['id'] for g in ((rec.get('ta') or {}).get('grants') or [])}
+            for cid0 in (prevg or {}):
+                if cid0 not in nowg:
+                    lost_at[cid0] = rec['op']
+            for cid0 in nowg:
+                lost_at.pop(cid0, None)
+            fs = [dict(f, sig=f['sig'] + ':after-update-request') if f['sig'] == 'overlapping-container-has-no-grant' and lost_at.get(f.get('ctr')) == 'UpdateContainer' else f for f in fs]
             if ev.get('op') in ('Reconfigure', 'Restart'):
                 reinstated = True
             if not reinstated:
